@@ -49,6 +49,7 @@ fn main() {
         "C13" => props::c13::run(&report, &tier),
         "C19" => props::c19::run(&report, &tier),
         "C14" => props::c14::run(&report, &tier),
+        "C15" => props::c15::run(&report, &tier),
         "C16" => props::c16::run(&report, &tier),
         "lab3" => {
             props::lab3();
